@@ -265,7 +265,7 @@ __CPROVER_ensures(ST_SHAPE(st)) /*@C08.qlt-wf C19.qlt-wf*/
      (st)->mapper_gen_topology == (gt0) && (st)->mapper_gen_quick == (gq0))
 
 static void answerHello(void *inFrame, lltd_iface_state *st, void *iface_ctx)
-__CPROVER_requires(PRE_frame(inFrame) && ST_SHAPE(st))
+__CPROVER_requires(V_R_OK(inFrame, 36) && ST_SHAPE(st))      /* base header + generation / station count of the Discover */
 __CPROVER_requires(PRE_answerHello(st, inFrame)) /*@C03.accepted-discover-state C05.accepted-discover-state*/
 __CPROVER_requires(iface_ctx == g_ctx) /*@C17.ctx-passed*/
 __CPROVER_assigns(g_led, g_hc, st->mapper_seq, st->mapper_real, st->mapper_apparent, st->mapper_known, st->mapper_gen_topology, st->mapper_gen_quick)
